@@ -215,7 +215,7 @@ func (cli *Client) handshake(c diam.Conn) (diam.Conn, error) {
 
 	var dwac chan struct{}
 	if cli.EnableWatchdog {
-		dwac = make(chan struct{})
+		dwac = make(chan struct{}, 1)
 		cli.Handler.mux.Handle("DWA", handshakeOK(handleDWA(cli.Handler, dwac)))
 	}
 	for i := 0; i < (int(cli.MaxRetransmits) + 1); i++ {
@@ -297,6 +297,11 @@ func (cli *Client) watchdog(c diam.Conn, dwac chan struct{}) {
 
 func (cli *Client) dwr(c diam.Conn, osid uint32, dwac chan struct{}) {
 	m := cli.makeDWR(osid)
+	// Discard an answer left over from an earlier watchdog cycle.
+	select {
+	case <-dwac:
+	default:
+	}
 	for i := 0; i < (int(cli.MaxRetransmits) + 1); i++ {
 		_, err := m.WriteToStream(c, cli.WatchdogStream)
 		if err != nil {
